@@ -576,7 +576,22 @@ fn gen_type_name(rng: &mut Rng, structs: &[String], depth_budget: usize) -> Stri
     for _ in 0..suffixes {
         match rng.below(6) {
             0 => t.push_str(&format!("[{}]", rng.below(3))),
-            1 => t.push_str("[18446744073709551616]"),
+            1 => t.push_str(
+                [
+                    // sizes no document can satisfy: 2^64 (not a usize), and usize values whose
+                    // product with 32 overflows, exceeds isize::MAX, or is merely absurd
+                    "[18446744073709551616]",
+                    "[18446744073709551615]",
+                    "[9223372036854775808]",
+                    "[4611686018427387904]",
+                    "[576460752303423488]",
+                    "[576460752303423487]",
+                    "[1099511627776]",
+                    "[4294967296]",
+                    "[4294967295]",
+                    "[65536]",
+                ][rng.usize_below(10)],
+            ),
             2 => t.push_str("[-1]"),
             _ => t.push_str("[]"),
         }
